@@ -30,7 +30,7 @@ REQUIRED_MONITORS = ('cli_vs_library_bytes', 'discovery_vs_truth', 'discovery_ha
 REQUIRED_CLASSES = ('mol:explicit-only', 'mol:explicit+auto', 'auto-only', 'exclude', 'exclude:several', 'output:given', 'output:default',
                     'input:other-directory', 'distractor:absent-species-topology', 'distractor:foreign-coordinates',
                     'distractor:unknown-extension', 'distractor:system-file-in-list', 'distractor:previous-output',
-                    'species-without-end-files', 'explicit-also-in-list', 'paths:explicit-and-listed-spelled-differently', 'scale:non-default', 'output-path:absolute',
+                    'species-without-end-files', 'explicit-also-in-list', 'mol:end-topology-named-differently', 'paths:explicit-and-listed-spelled-differently', 'scale:non-default', 'output-path:absolute',
                     'output-path:relative-plain', 'output-path:relative-subdir')
 RULE = ('generated directories of 2-4 species with distractor files (topologies of absent species, foreign coordinate files, '
         'unknown extensions, the system file and a previous output in the candidate list, a species without end files) x '
@@ -228,7 +228,13 @@ def library_run(w, species_triples, scale, out, seed, steps):
         np.random.seed(seed)
         man = Manager.from_files(w['system_gro'], *[t[0] for t in species_triples])
         for t in species_triples:
-            man.add_end_molecule(Molecule.from_files(t[1], t[2]))
+            end = Molecule.from_files(t[1], t[2])
+            start_name = read_topology(t[0])[0]
+            if end.name == start_name:
+                man.add_end_molecule(end)
+            else:
+                # an explicit triple pairs the files whatever the end topology calls the molecule
+                man.molecule_correspondence[start_name].end = end
         man.align_molecules()
         man.calculate_exchange_maps(scale_factor=scale)
         man.extrapolate_system(out)
@@ -299,6 +305,11 @@ def run_world(ctx, case):
             spelled[n] = [respell(w['files'][n][k]) for k in ('top_start', 'gro_end', 'top_end')]
         return list(spelled[n])
     auto = mode != 'explicit-only'
+    if not auto and i % 2 == 0:
+        # explicit triples only: the end topology of one species calls the molecule something else (e.g. BMIM_AA)
+        n = explicit[int(rng.integers(0, len(explicit)))]
+        sysgen.write_species_itp(dict(w['end_species'][n], name=n + '_AA'), w['files'][n]['top_end'])
+        ctx.hit('mol:end-topology-named-differently')
     candidates = []
     if auto:
         for n in names:
